@@ -912,6 +912,8 @@ func main() {
 	chAPIProxy = vh.NewChannel("api.proxy", "real search.Ingestor.Search(sr) over real stores (2 replicas per shard, replica 0 of odd shards down, with and without ShuffleReplicas) vs SV.Api.proxySearch over SV.Api.grpcSearch; also which replicas were asked")
 	chAggs := vh.NewChannel("qpr.mergeaggs", "aggregation part of seq.MergeQPRs (AggregatableSamples.Merge / SamplesContainer.Merge per bin: Min/Max/Sum/Total/NotExists/Samples) vs SV.Merge.mergeAggs; a piece holding only value-less documents (Total == 0 && NotExists > 0) sits first, in the middle or last; non-trivial = >1 piece")
 	orcAggs := vh.NewOracle("qpr.mergeaggs.order", "real MergeQPRs: merging the pieces in reverse order gives the same Total/NotExists/Sum per bin")
+	apiOracle = vh.NewOracle("api.proxy.complete", "real proxy over real stores, some with MaxFractionHits 1..3: an answer is the page of the single ordered list with the total of all matching documents, or an explicit error - never a silently short success; non-trivial = MaxFractionHits set")
+	apiRep = rep
 	orcSD := vh.NewOracle("searchdocs.partition", "SearchDocs over k scripted fractions equals the one-fraction answer (ids, total, histogram) for every FractionsPerIteration; non-trivial = more matches than the limit over >1 fraction")
 	orcPx := vh.NewOracle("proxy.paging", "Ingestor.Search page (offset,size) over s shards equals that window of the single ordered list")
 	orcSys := vh.NewOracle("system.fractions", "real FracManager: corpus in one fraction vs the same corpus in k fractions (active+sealed, overlapping ranges), all FractionsPerIteration, both orders; non-trivial = k>1 and more matches than the limit")
@@ -970,6 +972,7 @@ func main() {
 		rep.Note("driver %s: %d cases %.1fs", ch.Name, ch.Cases, time.Since(t0).Seconds())
 	}
 	rep.AddOracle(orcAggs)
+	rep.AddOracle(apiOracle)
 	rep.AddOracle(orcSD)
 	rep.AddOracle(orcPx)
 	rep.AddOracle(orcSys)
